@@ -890,6 +890,17 @@ func (x *Exec) unop(st *State, in *ssa.UnOp) *Value {
 			st.assume(fmt.Sprintf("(not (= %s 0))", v.P.Base))
 		}
 		lv := x.load(st, v.P, in.Type())
+		if v.P.Cell == nil {
+			// whatever reference the heap holds refers to an object that exists at the time of the load
+			switch lv.K {
+			case KPtr, KSlice:
+				x.markValueAllocated(st, lv)
+			case KLeaf:
+				if _, isMap := lv.T.Underlying().(*types.Map); isMap {
+					x.markValueAllocated(st, lv)
+				}
+			}
+		}
 		if g, ok := in.X.(*ssa.Global); ok && lv.K == KIface && x.eng.initOnlyErrGlobal(g) {
 			// a package-level error variable initialised by errors.New/fmt.Errorf and never assigned again
 			st.assume(fmt.Sprintf("(not (= %s 0))", lv.Fs[0].Term))
